@@ -47,6 +47,12 @@ def _cmp_multi_index(a, b):
         else:
             # Both are Index, no decision, do not depend on count!
             pass
+    # No decision on the common part: the shorter multiindex sorts first.
+    # Calling them equal would break transitivity, [0] would tie with
+    # both [0, 1] and [0, i] while [0, 1] < [0, i].
+    x, y = len(a._indices), len(b._indices)
+    if x != y:
+        return -1 if x < y else 1
     # Failed to make a decision, return 0 by default
     # (this does not mean equality, it could be e.g.
     # [i,0] vs [j,0] because the counts of i,j cannot be used)
